@@ -711,6 +711,13 @@ func genTX(o hx.Opts, emit func(string)) {
 			if n > 0 {
 				ms = fmt.Sprintf("@%d.4", n)
 			}
+			eff := p
+			if eff <= 0 {
+				eff = 1400
+			}
+			if n > 3000 && n/maxInt(eff-25, 1) > 300 {
+				continue // thousands of fragments of a very long message: the list-based model is too slow
+			}
 			emit(fmt.Sprintf("kind=tx pmtu=%d seq=%d msg=%s", p, n%7, ms))
 		}
 	}
@@ -728,8 +735,8 @@ func genTX(o hx.Opts, emit func(string)) {
 		if r.Chance(30) {
 			p = 26 + r.Intn(60)
 		}
-		if n/(maxInt(p-25, 1)) > 3000 {
-			p += 200
+		if n > 3000 && n/(maxInt(p-25, 1)) > 300 {
+			p += 1000
 		}
 		emit(fmt.Sprintf("kind=tx pmtu=%d seq=%d msg=@%d.%d", p, r.Intn(65536), n, r.Intn(40)))
 	}
